@@ -73,8 +73,11 @@ impl DnsRouteHandler {
                     if !msg.in_query.rd {
                         // We will only forward queries when requested to do so.
                         Err(Error::NotAuthoritative)
+                    } else if let Some(dest) = dest.first() {
+                        self.next.handle_query(msg, *dest).await
                     } else {
-                        self.next.handle_query(msg, dest[0]).await
+                        // dns-servers defaults to the empty list: there is nowhere to forward to.
+                        Err(Error::NoRouteConfigured)
                     }
                 }
                 Handler::ForgeNxDomain => Err(Error::Blocked),
